@@ -7,6 +7,9 @@ require (
 	gonum.org/v1/gonum v0.9.3
 )
 
-require github.com/armon/go-radix v1.0.0 // indirect
+require (
+	github.com/armon/go-radix v1.0.0 // indirect
+	github.com/ulikunitz/xz v0.5.10 // indirect
+)
 
 replace github.com/evolbioinfo/goalign => /repo
